@@ -149,6 +149,15 @@ instance (n : Nat) [OfNat K n] [OfNat K 0] : OfNat (Jet K) n := ⟨⟨OfNat.ofNa
 def const [OfNat K 0] (a : K) : Jet K := ⟨a, 0⟩
 end Jet
 
+/-! ## Componentwise maps and jets of vectors (value part / derivative part of jet-valued objects) -/
+def Vec3.map {α β : Type} (f : α → β) (v : Vec3 α) : Vec3 β := ⟨f v.x, f v.y, f v.z⟩
+def Quaternion.map {α β : Type} (f : α → β) (q : Quaternion α) : Quaternion β := ⟨f q.w, f q.x, f q.y, f q.z⟩
+def Mat33.map {α β : Type} (f : α → β) (m : Mat33 α) : Mat33 β :=
+  ⟨f m.m00, f m.m01, f m.m02, f m.m10, f m.m11, f m.m12, f m.m20, f m.m21, f m.m22⟩
+/-- the jet `v + ε vd` -/
+def Vec3.jet {K : Type} (v vd : Vec3 K) : Vec3 (Jet K) := ⟨⟨v.x, vd.x⟩, ⟨v.y, vd.y⟩, ⟨v.z, vd.z⟩⟩
+def Quaternion.jet {K : Type} (q qd : Quaternion K) : Quaternion (Jet K) := ⟨⟨q.w, qd.w⟩, ⟨q.x, qd.x⟩, ⟨q.y, qd.y⟩, ⟨q.z, qd.z⟩⟩
+
 section Algebra
 variable {K : Type} [Add K] [Sub K] [Mul K] [Neg K] [Div K] [OfNat K 0] [OfNat K 1] [OfNat K 2]
 
